@@ -31,6 +31,13 @@
 (*   x93        _gc_was_enabled = False                                    *)
 (*   x84x   second report of the `with` line: release, return, next op     *)
 (*                                                                         *)
+(*   ev     ENVIRONMENT: the application itself flips the collector flag   *)
+(*          (gc.enable()/gc.disable()) while the guard is idle: no thread  *)
+(*          inside _enter_z3/_exit_z3 and no call in flight.  Exactly      *)
+(*          MaxFlips such steps per behaviour; `base` is the value the     *)
+(*          application last chose = the value the guard must restore at   *)
+(*          the end of the next busy period.                               *)
+(*                                                                         *)
 (* Scripts[t] is the sequence of operations of thread t ("E" = enter,      *)
 (* "X" = exit).  A condom'd call whose body nests/raises is the flattened  *)
 (* script of the enters/exits it must perform (finally => exit).           *)
@@ -41,7 +48,8 @@
 EXTENDS Integers, Sequences, FiniteSets, TLC, GcGuardAbs
 
 CONSTANTS Scripts,   \* tuple of scripts
-          GC0S       \* set of initial values of the collector flag
+          GC0S,      \* set of initial values of the collector flag
+          MaxFlips   \* number of environment flips of the collector flag per behaviour (>= 1)
 
 \* named script sets (the .cfg files substitute one of them for Scripts)
 S_EX == <<<<"E", "X">>>>
@@ -50,12 +58,19 @@ S_EX_EX == <<<<"E", "X">>, <<"E", "X">>>>
 S_EEXX_EX == <<<<"E", "E", "X", "X">>, <<"E", "X">>>>
 S_EX_EX_EX == <<<<"E", "X">>, <<"E", "X">>, <<"E", "X">>>>
 S_EEXX_EX_EX == <<<<"E", "E", "X", "X">>, <<"E", "X">>, <<"E", "X">>>>
+S_EXEX == <<<<"E", "X", "E", "X">>>>
+S_EEXXEX == <<<<"E", "E", "X", "X", "E", "X">>>>
+S_EXEX_EX == <<<<"E", "X", "E", "X">>, <<"E", "X">>>>
+S_EXEX_EXEX == <<<<"E", "X", "E", "X">>, <<"E", "X", "E", "X">>>>
+S_EEXXEX_EX == <<<<"E", "E", "X", "X", "E", "X">>, <<"E", "X">>>>
 S_XEXX == <<<<"X", "E", "X", "X">>>>
 S_XEX_X == <<<<"X", "E", "X">>, <<"X">>>>
 
 Threads == 1..Len(Scripts)
+EnvId == Len(Scripts) + 1
 
-ASSUME PrintT(<<"SCRIPTS", Scripts>>)
+ASSUME MaxFlips \in Nat \ {0}
+ASSUME PrintT(<<"SCRIPTS", Scripts, MaxFlips>>)
 
 \* pc of a thread that has completed k operations: the `call` event of the next one, or termination
 NextPc(t, k) == IF k >= Len(Scripts[t]) THEN "Done" ELSE IF Scripts[t][k + 1] = "E" THEN "e70" ELSE "x81"
@@ -67,6 +82,8 @@ NextPc(t, k) == IF k >= Len(Scripts[t]) THEN "Done" ELSE IF Scripts[t][k + 1] = 
             active = 0,                   \* _active_z3_calls
             saved = FALSE,                \* _gc_was_enabled
             ufl = 0,                      \* number of log.error("... underflow") calls
+            base = gc0,                   \* what the application last set the flag to (while idle)
+            flips = 0,                    \* environment steps taken
             inflight = [t \in Threads |-> 0],
             ins = [t \in Threads |-> FALSE],
             pos = [t \in Threads |-> 0];
@@ -112,13 +129,23 @@ NextPc(t, k) == IF k >= Len(Scripts[t]) THEN "Done" ELSE IF Scripts[t][k + 1] = 
     x84x: Return();
           if (NextPc(self, pos[self]) = "e70") { goto e70 } else if (NextPc(self, pos[self]) = "x81") { goto x81 } else { goto Done };
   }
+
+  process (env = EnvId)
+  {
+    ev: await flips < MaxFlips /\ \A t \in Threads : ~ins[t] /\ inflight[t] = 0;
+        with (v = ~gc) { gc := v; base := v; };
+        flips := flips + 1;
+        if (flips < MaxFlips) { goto ev } else { goto Done };
+  }
 } *)
-\* BEGIN TRANSLATION (chksum(pcal) = "1ef34403" /\ chksum(tla) = "e48997ec")
-VARIABLES pc, gc0, gc, lock, active, saved, ufl, inflight, ins, pos
+\* BEGIN TRANSLATION
+VARIABLES pc, gc0, gc, lock, active, saved, ufl, base, flips, inflight, ins, 
+          pos
 
-vars == << pc, gc0, gc, lock, active, saved, ufl, inflight, ins, pos >>
+vars == << pc, gc0, gc, lock, active, saved, ufl, base, flips, inflight, ins, 
+           pos >>
 
-ProcSet == (Threads)
+ProcSet == (Threads) \cup {EnvId}
 
 Init == (* Global variables *)
         /\ gc0 \in GC0S
@@ -127,10 +154,13 @@ Init == (* Global variables *)
         /\ active = 0
         /\ saved = FALSE
         /\ ufl = 0
+        /\ base = gc0
+        /\ flips = 0
         /\ inflight = [t \in Threads |-> 0]
         /\ ins = [t \in Threads |-> FALSE]
         /\ pos = [t \in Threads |-> 0]
-        /\ pc = [self \in ProcSet |-> "start"]
+        /\ pc = [self \in ProcSet |-> CASE self \in Threads -> "start"
+                                        [] self = EnvId -> "ev"]
 
 start(self) == /\ pc[self] = "start"
                /\ IF NextPc(self, 0) = "e70"
@@ -138,48 +168,53 @@ start(self) == /\ pc[self] = "start"
                      ELSE /\ IF NextPc(self, 0) = "x81"
                                 THEN /\ pc' = [pc EXCEPT ![self] = "x81"]
                                 ELSE /\ pc' = [pc EXCEPT ![self] = "Done"]
-               /\ UNCHANGED << gc0, gc, lock, active, saved, ufl, inflight, 
-                               ins, pos >>
+               /\ UNCHANGED << gc0, gc, lock, active, saved, ufl, base, flips, 
+                               inflight, ins, pos >>
 
 e70(self) == /\ pc[self] = "e70"
              /\ ins' = [ins EXCEPT ![self] = TRUE]
              /\ pc' = [pc EXCEPT ![self] = "e73"]
-             /\ UNCHANGED << gc0, gc, lock, active, saved, ufl, inflight, pos >>
+             /\ UNCHANGED << gc0, gc, lock, active, saved, ufl, base, flips, 
+                             inflight, pos >>
 
 e73(self) == /\ pc[self] = "e73"
              /\ lock = 0
              /\ lock' = self
              /\ pc' = [pc EXCEPT ![self] = "e74"]
-             /\ UNCHANGED << gc0, gc, active, saved, ufl, inflight, ins, pos >>
+             /\ UNCHANGED << gc0, gc, active, saved, ufl, base, flips, 
+                             inflight, ins, pos >>
 
 e74(self) == /\ pc[self] = "e74"
              /\ IF active = 0
                    THEN /\ pc' = [pc EXCEPT ![self] = "e75"]
                    ELSE /\ pc' = [pc EXCEPT ![self] = "e78"]
-             /\ UNCHANGED << gc0, gc, lock, active, saved, ufl, inflight, ins, 
-                             pos >>
+             /\ UNCHANGED << gc0, gc, lock, active, saved, ufl, base, flips, 
+                             inflight, ins, pos >>
 
 e75(self) == /\ pc[self] = "e75"
              /\ saved' = gc
              /\ pc' = [pc EXCEPT ![self] = "e76"]
-             /\ UNCHANGED << gc0, gc, lock, active, ufl, inflight, ins, pos >>
+             /\ UNCHANGED << gc0, gc, lock, active, ufl, base, flips, inflight, 
+                             ins, pos >>
 
 e76(self) == /\ pc[self] = "e76"
              /\ IF saved
                    THEN /\ pc' = [pc EXCEPT ![self] = "e77"]
                    ELSE /\ pc' = [pc EXCEPT ![self] = "e78"]
-             /\ UNCHANGED << gc0, gc, lock, active, saved, ufl, inflight, ins, 
-                             pos >>
+             /\ UNCHANGED << gc0, gc, lock, active, saved, ufl, base, flips, 
+                             inflight, ins, pos >>
 
 e77(self) == /\ pc[self] = "e77"
              /\ gc' = FALSE
              /\ pc' = [pc EXCEPT ![self] = "e78"]
-             /\ UNCHANGED << gc0, lock, active, saved, ufl, inflight, ins, pos >>
+             /\ UNCHANGED << gc0, lock, active, saved, ufl, base, flips, 
+                             inflight, ins, pos >>
 
 e78(self) == /\ pc[self] = "e78"
              /\ active' = active + 1
              /\ pc' = [pc EXCEPT ![self] = "e73x"]
-             /\ UNCHANGED << gc0, gc, lock, saved, ufl, inflight, ins, pos >>
+             /\ UNCHANGED << gc0, gc, lock, saved, ufl, base, flips, inflight, 
+                             ins, pos >>
 
 e73x(self) == /\ pc[self] = "e73x"
               /\ lock' = 0
@@ -191,65 +226,71 @@ e73x(self) == /\ pc[self] = "e73x"
                     ELSE /\ IF NextPc(self, pos'[self]) = "x81"
                                THEN /\ pc' = [pc EXCEPT ![self] = "x81"]
                                ELSE /\ pc' = [pc EXCEPT ![self] = "Done"]
-              /\ UNCHANGED << gc0, gc, active, saved, ufl >>
+              /\ UNCHANGED << gc0, gc, active, saved, ufl, base, flips >>
 
 x81(self) == /\ pc[self] = "x81"
              /\ ins' = [ins EXCEPT ![self] = TRUE]
              /\ inflight' = [inflight EXCEPT ![self] = IF inflight[self] > 0 THEN inflight[self] - 1 ELSE 0]
              /\ pc' = [pc EXCEPT ![self] = "x84"]
-             /\ UNCHANGED << gc0, gc, lock, active, saved, ufl, pos >>
+             /\ UNCHANGED << gc0, gc, lock, active, saved, ufl, base, flips, 
+                             pos >>
 
 x84(self) == /\ pc[self] = "x84"
              /\ lock = 0
              /\ lock' = self
              /\ pc' = [pc EXCEPT ![self] = "x85"]
-             /\ UNCHANGED << gc0, gc, active, saved, ufl, inflight, ins, pos >>
+             /\ UNCHANGED << gc0, gc, active, saved, ufl, base, flips, 
+                             inflight, ins, pos >>
 
 x85(self) == /\ pc[self] = "x85"
              /\ IF active = 0
                    THEN /\ pc' = [pc EXCEPT ![self] = "x86"]
                    ELSE /\ pc' = [pc EXCEPT ![self] = "x89"]
-             /\ UNCHANGED << gc0, gc, lock, active, saved, ufl, inflight, ins, 
-                             pos >>
+             /\ UNCHANGED << gc0, gc, lock, active, saved, ufl, base, flips, 
+                             inflight, ins, pos >>
 
 x86(self) == /\ pc[self] = "x86"
              /\ ufl' = ufl + 1
              /\ pc' = [pc EXCEPT ![self] = "x87"]
-             /\ UNCHANGED << gc0, gc, lock, active, saved, inflight, ins, pos >>
+             /\ UNCHANGED << gc0, gc, lock, active, saved, base, flips, 
+                             inflight, ins, pos >>
 
 x87(self) == /\ pc[self] = "x87"
              /\ pc' = [pc EXCEPT ![self] = "x84x"]
-             /\ UNCHANGED << gc0, gc, lock, active, saved, ufl, inflight, ins, 
-                             pos >>
+             /\ UNCHANGED << gc0, gc, lock, active, saved, ufl, base, flips, 
+                             inflight, ins, pos >>
 
 x89(self) == /\ pc[self] = "x89"
              /\ active' = active - 1
              /\ pc' = [pc EXCEPT ![self] = "x90"]
-             /\ UNCHANGED << gc0, gc, lock, saved, ufl, inflight, ins, pos >>
+             /\ UNCHANGED << gc0, gc, lock, saved, ufl, base, flips, inflight, 
+                             ins, pos >>
 
 x90(self) == /\ pc[self] = "x90"
              /\ IF active = 0
                    THEN /\ pc' = [pc EXCEPT ![self] = "x91"]
                    ELSE /\ pc' = [pc EXCEPT ![self] = "x84x"]
-             /\ UNCHANGED << gc0, gc, lock, active, saved, ufl, inflight, ins, 
-                             pos >>
+             /\ UNCHANGED << gc0, gc, lock, active, saved, ufl, base, flips, 
+                             inflight, ins, pos >>
 
 x91(self) == /\ pc[self] = "x91"
              /\ IF saved
                    THEN /\ pc' = [pc EXCEPT ![self] = "x92"]
                    ELSE /\ pc' = [pc EXCEPT ![self] = "x93"]
-             /\ UNCHANGED << gc0, gc, lock, active, saved, ufl, inflight, ins, 
-                             pos >>
+             /\ UNCHANGED << gc0, gc, lock, active, saved, ufl, base, flips, 
+                             inflight, ins, pos >>
 
 x92(self) == /\ pc[self] = "x92"
              /\ gc' = TRUE
              /\ pc' = [pc EXCEPT ![self] = "x93"]
-             /\ UNCHANGED << gc0, lock, active, saved, ufl, inflight, ins, pos >>
+             /\ UNCHANGED << gc0, lock, active, saved, ufl, base, flips, 
+                             inflight, ins, pos >>
 
 x93(self) == /\ pc[self] = "x93"
              /\ saved' = FALSE
              /\ pc' = [pc EXCEPT ![self] = "x84x"]
-             /\ UNCHANGED << gc0, gc, lock, active, ufl, inflight, ins, pos >>
+             /\ UNCHANGED << gc0, gc, lock, active, ufl, base, flips, inflight, 
+                             ins, pos >>
 
 x84x(self) == /\ pc[self] = "x84x"
               /\ lock' = 0
@@ -260,7 +301,8 @@ x84x(self) == /\ pc[self] = "x84x"
                     ELSE /\ IF NextPc(self, pos'[self]) = "x81"
                                THEN /\ pc' = [pc EXCEPT ![self] = "x81"]
                                ELSE /\ pc' = [pc EXCEPT ![self] = "Done"]
-              /\ UNCHANGED << gc0, gc, active, saved, ufl, inflight >>
+              /\ UNCHANGED << gc0, gc, active, saved, ufl, base, flips, 
+                              inflight >>
 
 thr(self) == start(self) \/ e70(self) \/ e73(self) \/ e74(self)
                 \/ e75(self) \/ e76(self) \/ e77(self) \/ e78(self)
@@ -268,11 +310,25 @@ thr(self) == start(self) \/ e70(self) \/ e73(self) \/ e74(self)
                 \/ x86(self) \/ x87(self) \/ x89(self) \/ x90(self)
                 \/ x91(self) \/ x92(self) \/ x93(self) \/ x84x(self)
 
+ev == /\ pc[EnvId] = "ev"
+      /\ flips < MaxFlips /\ \A t \in Threads : ~ins[t] /\ inflight[t] = 0
+      /\ LET v == ~gc IN
+           /\ gc' = v
+           /\ base' = v
+      /\ flips' = flips + 1
+      /\ IF flips' < MaxFlips
+            THEN /\ pc' = [pc EXCEPT ![EnvId] = "ev"]
+            ELSE /\ pc' = [pc EXCEPT ![EnvId] = "Done"]
+      /\ UNCHANGED << gc0, lock, active, saved, ufl, inflight, ins, pos >>
+
+env == ev
+
 (* Allow infinite stuttering to prevent deadlock on termination. *)
 Terminating == /\ \A self \in ProcSet: pc[self] = "Done"
                /\ UNCHANGED vars
 
-Next == (\E self \in Threads: thr(self))
+Next == env
+           \/ (\E self \in Threads: thr(self))
            \/ Terminating
 
 Spec == Init /\ [][Next]_vars
@@ -286,7 +342,8 @@ Termination == <>(\A self \in ProcSet: pc[self] = "Done")
 (***************************************************************************)
 Cfg == [scripts |-> Scripts, gc0 |-> gc0]
 Obs == [gc |-> gc, act |-> active, ufl |-> ufl, fl |-> inflight, ins |-> ins, pos |-> pos,
-        fin |-> [t \in Threads |-> pc[t] = "Done"], bgc |-> FALSE, crash |-> FALSE, dead |-> FALSE]
+        fin |-> [t \in Threads |-> pc[t] = "Done"], base |-> base, flips |-> flips,
+        bgc |-> FALSE, crash |-> FALSE, dead |-> FALSE]
 
 \* INVARIANTS (abstract level, one per clause of the property + all of them)
 InvCountNonNeg == CountNonNeg(Cfg, Obs)
